@@ -416,7 +416,7 @@ def scenarios(tier):
         {"name": "rm_exist", "init": [1, 2], "handles": 1,
          "threads": [{"h": 0, "ops": [R(1)]}, {"h": 0, "ops": [E(1), E(1), E(2)]}]},
         {"name": "two_handles", "init": [1], "handles": 2,
-         "threads": [{"h": 0, "ops": [A(2)]}, {"h": 1, "ops": [L(), L()]}, {"h": 0, "ops": [L()]}]},
+         "threads": [{"h": 0, "ops": [A(2), L()]}, {"h": 1, "ops": [L(), L()]}]},
         {"name": "w2_r2", "init": [], "handles": 1,
          "threads": [{"h": 0, "ops": [A(1), A(2)]}, {"h": 0, "ops": [L(), E(2), L()]}]},
         {"name": "pages", "init": [1, 2, 3], "handles": 1,
@@ -424,6 +424,8 @@ def scenarios(tier):
     ]
     if tier == "thorough":
         s += [
+            {"name": "two_handles3", "init": [1], "handles": 2,
+             "threads": [{"h": 0, "ops": [A(2)]}, {"h": 1, "ops": [L(), L()]}, {"h": 0, "ops": [L()]}]},
             {"name": "rm_exist3", "init": [1, 2], "handles": 1,
              "threads": [{"h": 0, "ops": [R(1)]}, {"h": 0, "ops": [E(1), E(1)]}, {"h": 0, "ops": [E(1)]}]},
             {"name": "pages3", "init": [1, 2, 3], "handles": 1,
@@ -463,9 +465,9 @@ def run(ctx):
     reproduced = {}
 
     # ---------------------------------------------------------------- 1. sequential lock-step histories
-    nseq = 4000 if thorough else 300
+    nseq = 4000 if thorough else 220
     seq = hmemo(["-mode", "seq", "-n", str(nseq), "-seed", str(ctx.seed)])
-    nflt = 1500 if thorough else 120
+    nflt = 1500 if thorough else 80
     flt = hmemo(["-mode", "seq", "-n", str(nflt), "-seed", str(ctx.seed + 7919), "-faults"])
     allseq = seq + flt
     for c in allseq:
